@@ -89,4 +89,40 @@ theorem hash_https_blocked_src : hash_https_blocked = hash_https_blocked_expecte
 def hash_resp_conds_expected : String := "fam == netutil.AddrFamilyNone"
 theorem hash_resp_conds_src : hash_resp_conds = hash_resp_conds_expected := rfl
 
+/-- `ConfigSchedule.Contains` (`Agd.Filter.Sched.contains`): the instant is converted to the profile's zone first, the weekday of THAT reading selects the interval, nil and the zero interval never match, midnight comes from `time.Date` in the zone, the minutes are added as elapsed time, start inclusive and end exclusive. -/
+def sched_contains_zone_expected : String := "t.In(&s.TimeZone.Location)"
+theorem sched_contains_zone_src : sched_contains_zone = sched_contains_zone_expected := rfl
+def sched_contains_day_expected : String := "s.Week[int(t.Weekday())]"
+theorem sched_contains_day_src : sched_contains_day = sched_contains_day_expected := rfl
+def sched_contains_conds_expected : String := "r == nil || *r == (DayInterval{})"
+theorem sched_contains_conds_src : sched_contains_conds = sched_contains_conds_expected := rfl
+def sched_contains_midnight_expected : String := "time.Date(t.Year(), t.Month(), t.Day(), 0, 0, 0, 0, &s.TimeZone.Location)"
+theorem sched_contains_midnight_src : sched_contains_midnight = sched_contains_midnight_expected := rfl
+def sched_contains_start_expected : String := "day.Add(time.Duration(r.Start) * time.Minute)"
+theorem sched_contains_start_src : sched_contains_start = sched_contains_start_expected := rfl
+def sched_contains_end_expected : String := "day.Add(time.Duration(r.End) * time.Minute)"
+theorem sched_contains_end_src : sched_contains_end = sched_contains_end_expected := rfl
+def sched_contains_return_expected : String := "!t.Before(start) && t.Before(end)"
+theorem sched_contains_return_src : sched_contains_return = sched_contains_return_expected := rfl
+/-- HTTPS answers: both hint kinds are filtered, each hint under the record type HTTPS, first verdict wins; other records by `parseRespAnswer` (`Agd.Filter.answerVerdict`). -/
+def https_answer_cases_expected : String := "dns.SVCB_IPV4HINT,dns.SVCB_IPV6HINT | default"
+theorem https_answer_cases_src : https_answer_cases = https_answer_cases_expected := rfl
+def https_hint_args_expected : String := "resp, s, dns.TypeHTTPS"
+theorem https_hint_args_src : https_hint_args = https_hint_args_expected := rfl
+def https_hint_conds_expected : String := "r != nil"
+theorem https_hint_conds_src : https_hint_conds = https_hint_conds_expected := rfl
+def resp_answer_cases_expected : String := "*dns.A | *dns.AAAA | *dns.CNAME | default"
+theorem resp_answer_cases_src : resp_answer_cases = resp_answer_cases_expected := rfl
+/-- `filterDNSRewriteResponse`: the record types a `$dnsrewrite` value can be synthesised for; only the values of the queried type are used (`Agd.Filter.rewriteVals`, `synthesizable`). -/
+def rewrite_rr_cases_expected : String := "dns.TypeA,dns.TypeAAAA | dns.TypePTR,dns.TypeTXT | dns.TypeMX | dns.TypeHTTPS,dns.TypeSVCB | dns.TypeSRV | default"
+theorem rewrite_rr_cases_src : rewrite_rr_cases = rewrite_rr_cases_expected := rfl
+def rewrite_values_of_qtype_expected : String := "dnsrr.Response[rr]"
+theorem rewrite_values_of_qtype_src : rewrite_values_of_qtype = rewrite_values_of_qtype_expected := rfl
+/-- `NewConstructor` fails for a nil blocking mode and for a negative TTL (`Agd.Filter.ctorOf`). -/
+def ctor_validate_conds_expected : String := "conf.Cloner == nil | err != nil | conf.BlockingMode == nil | conf.FilteredResponseTTL < 0"
+theorem ctor_validate_conds_src : ctor_validate_conds = ctor_validate_conds_expected := rfl
+/-- The custom rules of a profile are cached by its ID and rebuilt when the profile's update time is newer. -/
+def custom_cache_conds_expected : String := "!ok | item.updTime.Before(c.UpdateTime)"
+theorem custom_cache_conds_src : custom_cache_conds = custom_cache_conds_expected := rfl
+
 end Agd.Tie.C02
